@@ -173,7 +173,9 @@ static unsigned others_running(u32 tid) { return 0; }
 static unsigned others_running(u32 tid) {
   unsigned r = 0;
   if (tid != 0) r |= !FIN(TA);
+#if NT >= 2
   if (tid != 1) r |= !FIN(TB);
+#endif
 #if NT == 3
   if (tid != 2) r |= !FIN(TC);
 #endif
@@ -196,7 +198,12 @@ int main(void) {
   vp_pregrow(&vec, PRE, PMODE, 7);
   for (unsigned i = 0; i < PRE; i++) pre_addr[i] = vp_at(&vec, i);
   started = 1;
-  int kind[3] = { KA, KB,
+  int kind[3] = { KA,
+#if NT >= 2
+    KB,
+#else
+    0,
+#endif
 #if NT == 3
     KC
 #else
@@ -219,6 +226,12 @@ int main(void) {
   }
   int vp_deadlock = 0, vp_unfinished = 0;
 #else
+#if NT == 1
+  /* one thread alone: bounded symbolic execution of a single call (loops unrolled by LLVM, no interleaving) */
+  CAT(TA, _start)(&vec, 0, arg[0], PROBE);
+  vp_cur = 0; VP_RUNMAX(TA) VP_RUNMAX(TA)
+  int vp_unfinished = !FIN(TA), vp_deadlock = vp_unfinished && CAT(TA, _blocked);
+#else
   CAT(TA, _start)(&vec, 0, arg[0], PROBE); CAT(TB, _start)(&vec, 1, arg[1], PROBE);
 #if NT == 3
   CAT(TC, _start)(&vec, 2, arg[2], PROBE);
@@ -233,6 +246,7 @@ int main(void) {
   VP_QUIESCE3(TA, TB, TC)
 #else
   VP_QUIESCE2(TA, TB)
+#endif
 #endif
 #endif
   VP_ASSERT(!vp_deadlock, "growth calls wait forever (every unfinished thread is spinning and nothing changes)");
